@@ -349,6 +349,16 @@ pub fn classics() -> Vec<(String, Prog)> {
             out.push((format!("W;f;R|W;f;W|R;f;R[{},{}]", f1.s(), f2.s()), Prog { nlocs: 3, pre: vec![], threads: vec![vec![], vec![st(0, 1, Rlx), f(f1), ld(1, Rlx)], vec![st(1, 1, Rlx), f(f2), st(2, 1, Rlx)], vec![ld(2, Rlx), f(Acq), ld(0, Rlx)]] }));
         }
     }
+    // the store half of an RMW carries the release of the store it read even when the RMW itself already happens-before
+    // the reader by another route (z): W;W_rel ‖ RMW;W_rel(z) ‖ R_acq(z);R(x);[F_acq];R
+    for &ro in &RMW_ORDS {
+        for &f2 in &[Acq, AcqRel, Sc] {
+            out.push((format!("relseq-rmw-known+f[{},{}]", ro.s(), f2.s()), Prog { nlocs: 3, pre: vec![], threads: vec![vec![ld(2, Acq), ld(1, Rlx), f(f2), ld(0, Rlx)], vec![st(0, 1, Rlx), st(1, 1, Rel)], vec![Op::FetchAdd { loc: 1, add: 1, ord: ro }, st(2, 1, Rel)]] }));
+        }
+        for &lo in &[Acq, Sc] {
+            out.push((format!("relseq-rmw-known[{},{}]", ro.s(), lo.s()), Prog { nlocs: 3, pre: vec![], threads: vec![vec![ld(2, Acq), ld(1, lo), ld(0, Rlx)], vec![st(0, 1, Rlx), st(1, 1, Rel)], vec![Op::FetchAdd { loc: 1, add: 1, ord: ro }, st(2, 1, Rel)]] }));
+        }
+    }
     // release sequence continued by an RMW of another thread, in every RMW ordering, swap and fetch_add
     for &ro in &RMW_ORDS {
         for &lo in &LOAD_ORDS {
